@@ -146,6 +146,8 @@ pub(crate) enum Message {
     #[cfg(feature = "internal")]
     PackageTxs(Request<Option<u64>, Vec<TxEntry>>),
     SubmitLocalTestTx(Request<TransactionView, SubmitTxResult>),
+    #[cfg(ckb_verif)]
+    VerifDump(Request<(), String>),
 }
 
 #[derive(Debug, Hash, Eq, PartialEq)]
@@ -1069,6 +1071,11 @@ async fn process(mut service: TxPoolService, message: Message) {
                 error!("Responder sending total_recent_reject_num failed {:?}", e)
             };
         }
+        #[cfg(ckb_verif)]
+        Message::VerifDump(Request { responder, .. }) => {
+            let dump = service.tx_pool.read().await.verif_dump();
+            let _ = responder.send(dump);
+        }
     }
 }
 
@@ -1282,5 +1289,13 @@ impl TxPoolService {
                 error!("block_assembler receiver dropped");
             }
         }
+    }
+}
+
+#[cfg(ckb_verif)]
+impl TxPoolController {
+    /// Verification hook: read-only JSON dump of the pool's entries, links, edges and counters.
+    pub fn verif_dump(&self) -> Result<String, AnyError> {
+        send_message!(self, VerifDump, ())
     }
 }
